@@ -28,7 +28,7 @@ func acquired(write bool) {
 	w, r := vsched.Ctr(cW), vsched.Ctr(cR)
 	vsched.Observe(oAcq, b2i(write), w, r)
 	if w > 1 || (w > 0 && r > 0) {
-		fail("C01.exclusion", "write holders=%d read holders=%d after an acquire", w, r)
+		fail("exclusion", "write holders=%d read holders=%d after an acquire", w, r)
 	}
 }
 
@@ -803,7 +803,7 @@ func init() {
 			for i, rel := range rels {
 				if r, ok := m.TryLock(true); ok {
 					vsched.CtrSet(cW, 1)
-					fail("C01.exclusion", "TryLock(write) granted while %d of %d read holders have not released", n-i, n)
+					fail("exclusion", "TryLock(write) granted while %d of %d read holders have not released", n-i, n)
 					r()
 					return
 				}
